@@ -88,7 +88,9 @@ def run(ctx):
     big = bytes((i * 11 + 5) % 256 for i in range(66000))
     for ps, g in (("Pi23", "i23"), ("PEd25519", "Ed25519"), ("P1024", "I1024")):
         q = uni.group(g).order()
-        for k, (pw, ids) in enumerate([(big[:3000], (b"a", b"b")), (b"pw", (big[:65537], big[:2])), (big[:1025], (big[:1024], big[:4097]))]):
+        for k, (pw, ids) in enumerate([(big[:3000], (b"a", b"b")), (b"pw", (big[:65537], big[:2])), (big[:1025], (big[:1024], big[:4097])),
+                                       # whole multiples of block and chunk sizes (64, 4096, 8192, 65536)
+                                       (big[:4096], (big[:64], big[:8192])), (big[:64], (big[:4096], big[:128])), (b"pw", (big[:65536], big[:4096]))]):
             if k and not thorough and g != "i23":
                 continue
             pairing = "AB" if k % 2 == 0 else "SS"
